@@ -226,6 +226,20 @@ class Tap:
                     dict.__delitem__(self, k)
 
         class TapDispatchQueue(queue.Queue):
+            when_seen_empty = None  # forced schedule: runs right after the consumer has computed "queue is empty"
+
+            def qsize(self):
+                size = super().qsize()
+                action = self.when_seen_empty
+                if size == 0 and action is not None:
+                    self.when_seen_empty = None
+                    action()
+                    end = time.time() + 2.0
+                    while super().qsize() == 0 and time.time() < end:  # let the receive path queue (and trigger) before the consumer goes on
+                        time.sleep(0.003)
+                    time.sleep(0.01)
+                return size
+
             def put(self, item, block=True, timeout=None):
                 with tap.lock:
                     h = item[1].header
@@ -1300,6 +1314,83 @@ def part_link_loss_in_progress(cx: Ctx):
                 res.disagree("request outstanding across a link loss vs Model.Txn", {"case": case, "line": line[:1000]}, ans[:400], want)
 
 
+# ---------------------------------------------------------------------------------------------- (vii) no lost wake-up between receive path and dispatcher
+def part_lost_wakeup(cx: Ctx):
+    """a reply is queued exactly when the dispatcher thread has just found its queue empty after dispatching an earlier message (the
+    schedule is forced inside `qsize()` of the dispatch queue).  Oracle: the requester gets its reply within T3, the reply is not handed to
+    the application, and a later message still arrives in order."""
+    res = cx.res
+    for variant in ("reply", "unsolicited"):
+        rig = Rig(t3=1.2)
+        if not rig.connect():
+            return
+        rig.quiesce(limit=0.5)
+        c0 = rig.p._system_counter
+        out = {}
+        t = threading.Thread(target=lambda: out.update(r=rig.p.send_and_waitfor_response(Fn(1, 1))), daemon=True)
+        t.start()
+        limit = time.time() + 2
+        while time.time() < limit and "sent" not in rig.tap.pc.values():
+            time.sleep(0.002)
+        wire = rig.c.data_systems()
+        if not wire:
+            res.violate("c06-request-hang", "request never reached the wire", {"part": "lost-wakeup"})
+            continue
+        k = wire[0][0]
+        dq = rig.p._thread._dispatch_queue
+        late = data_msg(k, 1, 2) if variant == "reply" else data_msg(910002, 6, 13)
+        dq.when_seen_empty = lambda late=late: rig.feed(late)
+        rig.feed(data_msg(910001, 5, 1))  # an earlier unsolicited message: after it the dispatcher finds the queue empty
+        t0 = time.time()
+        if variant == "reply":
+            t.join(3.0)
+        else:
+            limit = time.time() + 1.2
+            while time.time() < limit:
+                with rig.ev_lock:
+                    if sum(1 for e in rig.events if e[0] == "start") >= 2:
+                        break
+                time.sleep(0.005)
+        waited = time.time() - t0
+        with rig.ev_lock:
+            before_later = [(s_, tg) for (kk, s_, tg) in rig.events if kk == "start"]
+        rig.feed(data_msg(910003, 10, 1))  # later traffic (would flush a stuck block)
+        if variant != "reply":
+            rig.feed(data_msg(k, 1, 2))
+            t.join(3.0)
+        rig.quiesce(limit=1.0)
+        with rig.ev_lock:
+            starts = [(s_, tg) for (kk, s_, tg) in rig.events if kk == "start"]
+        r = out.get("r")
+        case = {"part": "lost-wakeup", "variant": variant, "system": k, "hook_fired": dq.when_seen_empty is None}
+        res.count(("lost-wakeup", variant), sample=dict(case, returned=show_result(r), application_got=starts, waited_s=round(waited, 2)))
+        res.bump("block_queued_right_after_dispatcher_saw_empty_queue", f"{variant}: hook fired={case['hook_fired']}")
+        problems = []
+        if variant == "reply":
+            if r is None or r.header.system != k or r.header.function != 2:
+                problems.append("the reply was queued well inside T3 (right after the dispatcher found its queue empty) but the requester got " + show_result(r))
+            if (k, 258) in starts:
+                problems.append("the reply was later handed to the application as an unsolicited message")
+            want = [(910001, 5 * 256 + 1), (910003, 10 * 256 + 1)]
+        else:
+            if (910002, 6 * 256 + 13) not in before_later:
+                problems.append("an unsolicited message queued right after the dispatcher found its queue empty was not handed over until later traffic arrived")
+            want = [(910001, 5 * 256 + 1), (910002, 6 * 256 + 13), (910003, 10 * 256 + 1)]
+        if [x for x in starts if x[0] >= 910000] != want:
+            problems.append("unsolicited messages not handed over exactly once, in order")
+        if problems:
+            res.violate("c06-lost-wakeup", "; ".join(problems), case, {"requester": f"{k}:258", "application": want}, {"requester": show_result(r), "application": starts})
+        toks, err = rig.tap.tokens(cx.atomic)
+        if cx.drv.available and toks is not None and not t.is_alive():
+            line, ans = model_run(cx.drv, cx.atomic, cx.patched, c0, max(rig.tap.n_callers, 1), toks)
+            res.traces_validated += 1
+            m = parse_model(ans)
+            want_m = (show_result(r), [f"{a_}:{b_}" for (a_, b_) in starts])
+            got_m = None if m is None else (m["callers"][0][2] if m["callers"] else None, m["delivered"])
+            if got_m != want_m:
+                res.disagree("reply queued while the dispatcher goes idle vs Model.Txn", {"case": case, "line": line[:1000]}, ans[:400], want_m)
+
+
 # ---------------------------------------------------------------------------------------------- static tie: the SECS-I routing branch
 def part_static_tie(cx: Ctx):
     """the harness drives HSMS; the SECS-I endpoint shares Protocol.send_and_waitfor_response and has its own copy of the routing branch:
@@ -1395,6 +1486,8 @@ def main():
             part_primary_collision(cx)
         if want("link-loss"):
             part_link_loss_in_progress(cx)
+        if want("lost-wakeup"):
+            part_lost_wakeup(cx)
         if replay_classes:
             res.violations = [v for v in res.violations if v["class"] in replay_classes]  # "does the recorded failure still fail"
     except Exception as exc:  # noqa: BLE001
